@@ -59,6 +59,7 @@ func (x *c16Set) render() string {
 
 // c16Fault says: the Occ-th command (within one apply cycle) whose signature is Sig misbehaves.
 //
+//	list -name only: vanish (listing is fine, then another actor destroys the reported set named in Line)
 //	list:    pipe | start | rc (no output, bad exit) | trunc (N lines then read error, bad exit) | late (full output, bad exit)
 //	restore: pipe | start | line (process dies when it reaches Line; earlier lines applied, all writes accepted)
 //	         | write (the write of Line fails with EPIPE; earlier lines applied; process exits non-zero) | late (all applied, bad exit)
@@ -79,6 +80,7 @@ type c16RecCmd struct {
 	Idx     int
 	NLines  int      // list: number of output lines of the fault-free run
 	Lines   []string // restore: normalised lines written (incl. COMMIT)
+	Names   []string // list -name: normalised names of the Felix-owned sets it reported
 	Faulted string
 }
 
@@ -96,7 +98,9 @@ type c16Kernel struct {
 	onDestroy func(name string, failed bool)
 	// onRestoreFail reports the sets that a failing `ipset restore` had created before it failed
 	onRestoreFail func(created []string)
-	trace         []string // human readable command trace of the current cycle
+	// onVanish reports a set that another actor destroyed right after `ipset list -name` reported it
+	onVanish func(name string)
+	trace    []string // human readable command trace of the current cycle
 }
 
 func newC16Kernel() *c16Kernel {
@@ -387,6 +391,28 @@ func (c *c16Cmd) runList() {
 	}
 	if c.rec != nil && natural {
 		c.rec.NLines = len(lines)
+		if c.args[1] == "-name" {
+			for _, n := range lines {
+				if strings.HasPrefix(n, "cali4") || strings.HasPrefix(n, "felix-") {
+					c.rec.Names = append(c.rec.Names, c16Norm(n))
+				}
+			}
+		}
+	}
+	if natural && c.mode() == "vanish" && c.args[1] == "-name" {
+		// the listing is complete and correct; before Felix gets to look at the set itself, another
+		// actor (having flushed the rules that used it) destroys one of the sets just reported
+		for _, n := range lines {
+			if c16Norm(n) == c.fault.Line {
+				c.fire()
+				delete(k.sets, n)
+				delete(k.refs, n)
+				if k.onVanish != nil {
+					k.onVanish(n)
+				}
+				break
+			}
+		}
 	}
 	if natural {
 		switch c.mode() {
@@ -540,6 +566,9 @@ func c16FaultPoints(r *c16RecCmd) []c16Fault {
 		}
 		for i := 0; i < r.NLines; i++ {
 			f("trunc", "", i)
+		}
+		for _, n := range r.Names {
+			f("vanish", n, 0)
 		}
 	case "restore":
 		f("pipe", "", 0)
